@@ -69,7 +69,7 @@ Proof.
   pose proof (H160_len (x00 :: x14 :: h160)) as La. pose proof (H160_len (x00 :: x20 :: s256)) as Lb.
   remember (H160 (x00 :: x14 :: h160)) as ha eqn:Ea. remember (H160 (x00 :: x20 :: s256)) as hb eqn:Eb.
   clear C1 C2 C3 C4 Hp.
-  destruct fx as [fw fn fp tb0].
+  destruct fx as [fw fn fp fa tb0].
   explode h160 L1. explode s256 L2. explode ha La. explode hb Lb.
   destruct w, ms; each_net Hn; destruct fw, fn, fp;
     (cbv beta iota delta [spec_hd_dest]; rewrite <- ?Ea, <- ?Eb;
